@@ -338,6 +338,21 @@ def _kind(value):
     return type(value).__name__
 
 
+def _same(left, right):
+    '''
+    Equality of two values of one kind.  The elements of a list and the
+    members of a dict are compared by the rules of a cell (kinds, units,
+    a reference is its identifier), not by Python's == (True == 1).
+    '''
+    if isinstance(left, list):
+        return len(left) == len(right) and \
+            all(_cmp('==', l, r) for (l, r) in zip(left, right))
+    if isinstance(left, dict):
+        return set(left.keys()) == set(right.keys()) and \
+            all(_cmp('==', left[k], right[k]) for k in left.keys())
+    return bool(left == right)
+
+
 def _cmp(op, left, right):
     '''
     A comparison on an absent tag or between incomparable kinds is false
@@ -363,6 +378,8 @@ def _cmp(op, left, right):
         left = left.value if isinstance(left, Quantity) else left
         right = right.value if isinstance(right, Quantity) else right
     try:
+        if op in ('==', '!='):
+            return _same(left, right) == (op == '==')
         return bool(_CMP_OPS[op](left, right))
     except TypeError:
         return False
